@@ -2,6 +2,7 @@
   C17 — Folding ranges match procedure extents.  Property theorems only.
 -/
 import SplVerif.Model.Features
+import SplVerif.Lemmas.FoldPos
 
 namespace Spl.C17
 open Spl.Feat
@@ -55,5 +56,106 @@ theorem skip_leading_comments_head (ts : List Token) :
     · rename_i hk
       simp at h; subst h
       simpa using hk
+
+/-! ### well-formed ranges -/
+
+theorem skipLeadingComments_suffix (ts : List Token) : skipLeadingComments ts <:+ ts := by
+  induction ts with
+  | nil => simp [skipLeadingComments]
+  | cons a rest ih =>
+    simp only [skipLeadingComments]
+    split
+    · exact List.IsSuffix.trans ih (List.suffix_cons a rest)
+    · exact List.suffix_refl _
+
+theorem slice_toList_sublist (s : Slice) : s.toList.Sublist s.toks.toList := by
+  simp only [Slice.toList, Array.toList_extract, List.extract_eq_take_drop]
+  exact List.Sublist.trans (List.take_sublist _ _) (List.drop_sublist _ _)
+
+/-- **Every folding range is well-formed: it starts on or before the line it ends on** — for
+    every document whose token vector is the tokenisation of its text (which `AnalyzedSource::new`
+    and, by C07, every `update` guarantee), whatever the tree looks like. -/
+theorem fold_start_le_end (d : AnalyzedSource) (hinv : lex d.text = .ok d.tokens)
+    (pd : ProcDecl) (offset : Nat) (r : Nat × Nat) (h : foldOne d pd offset = .ok r) : r.1 ≤ r.2 := by
+  unfold foldOne at h
+  cases hs : (allTokens d).sub (pd.info.range.shift offset) with
+  | none => simp [hs] at h
+  | some s =>
+    simp only [hs, Except.ok.injEq] at h
+    subst h
+    have hsub : (skipLeadingComments s.toList).Sublist d.tokens := by
+      have h1 : (skipLeadingComments s.toList).Sublist s.toList := (skipLeadingComments_suffix _).sublist
+      have h2 := slice_toList_sublist s
+      have h3 : s.toks = d.tokens.toArray := by
+        simp only [allTokens, Slice.full, Slice.sub] at hs
+        by_cases hc : (pd.info.range.shift offset).lo ≤ (pd.info.range.shift offset).hi ∧
+            0 + (pd.info.range.shift offset).hi ≤ d.tokens.toArray.size
+        · simp only [hc, and_self, if_true, Option.some.injEq] at hs
+          rw [← hs]
+        · simp only [hc, if_false] at hs
+          cases hs
+      rw [h3] at h2
+      exact h1.trans (by simpa using h2)
+    obtain ⟨hpw, hle⟩ := FoldPos.tokens_ordered d.text d.tokens hinv
+    have hpw' := List.Pairwise.sublist hsub hpw
+    cases hts : skipLeadingComments s.toList with
+    | nil => simp [asPosRange]
+    | cons f xs =>
+      rw [hts] at hsub hpw'
+      cases hl : (f :: xs).getLast? with
+      | none => simp at hl
+      | some l =>
+        simp only [List.head?_cons, hl, asPosRange]
+        -- f starts no later than l ends
+        have hfl : f.range.lo ≤ l.range.hi := by
+          cases xs with
+          | nil =>
+            simp only [List.getLast?_singleton, Option.some.injEq] at hl
+            subst hl
+            exact hle f (hsub.subset (by simp))
+          | cons y ys =>
+            rw [List.pairwise_cons] at hpw'
+            have hmem : l ∈ y :: ys := by
+              rw [List.getLast?_cons_cons] at hl
+              exact List.mem_of_getLast? hl
+            exact hpw'.1 l hmem
+        have hf : f ∈ d.tokens := hsub.subset (by simp)
+        have hlm : l ∈ d.tokens := hsub.subset (List.mem_of_getLast? hl)
+        obtain ⟨⟨a1, b1, e1, p1⟩, _⟩ := FoldPos.token_bounds_are_cuts d.text d.tokens hinv f hf
+        obtain ⟨_, ⟨a2, b2, e2, p2⟩⟩ := FoldPos.token_bounds_are_cuts d.text d.tokens hinv l hlm
+        obtain ⟨m, hm1, hm2⟩ := split_prefix (e1.symm.trans e2) (by omega)
+        have := FoldPos.asPosition_line_mono a1 m b2
+        rw [← p1, ← p2, hm1]
+        have et : d.text = a1 ++ (m ++ b2) := by rw [e2, hm1, List.append_assoc]
+        rw [et]
+        exact this
+
+/-- … hence every range the folding handler returns is well-formed. -/
+theorem fold_wellformed (d : AnalyzedSource) (hinv : lex d.text = .ok d.tokens)
+    (decls : List (Ref GlobalDecl)) (rs : List (Nat × Nat)) (h : foldDecls d decls = .ok rs) :
+    ∀ r ∈ rs, r.1 ≤ r.2 := by
+  induction decls generalizing rs with
+  | nil => simp [foldDecls] at h; subst h; intro r hr; cases hr
+  | cons gd rest ih =>
+    obtain ⟨v, off⟩ := gd
+    cases v with
+    | proc pd =>
+      simp only [foldDecls] at h
+      cases h1 : foldOne d pd off with
+      | error e => simp [h1] at h
+      | ok r0 =>
+        simp only [h1] at h
+        cases h2 : foldDecls d rest with
+        | error e => simp [h2] at h
+        | ok rs' =>
+          simp only [h2] at h
+          cases h
+          intro r hr
+          simp only [List.mem_cons] at hr
+          rcases hr with rfl | hr
+          · exact fold_start_le_end d hinv pd off r h1
+          · exact ih rs' h2 r hr
+    | type td => simp only [foldDecls] at h; exact ih rs h
+    | error i => simp only [foldDecls] at h; exact ih rs h
 
 end Spl.C17
